@@ -209,11 +209,13 @@ DoText(s) ==
 DoPrint(s) ==
   LET r == Eval(s.e, heap, cur, ctx) IN
   IF ~r.ok THEN Raise(r.class, s.id) /\ UNCHANGED <<frames, heap, cur, ctx, contents, content, bufs, writer, out, rv>>
-  ELSE /\ LET ch == (IF s.f = "raw" THEN "R:" ELSE "V:") \o r.v
+  ELSE /\ LET ch == (IF s.f = "" THEN "V:" ELSE "R:" \o s.f \o ":") \o r.v
               w  == IF r.v = Nil THEN [out |-> out, bufs |-> bufs] ELSE WriteTo(writer, ch, out, bufs)
           IN out' = w.out /\ bufs' = w.bufs
-       /\ frames' = AdvancePC
-       /\ UNCHANGED <<heap, cur, ctx, contents, content, writer, rv, err, mode>>
+       /\ IF s.g = "argfail"      \* {{ sw: e, fail() }}: e is written, then the next argument fails
+          THEN Raise("func", s.id) /\ UNCHANGED frames
+          ELSE frames' = AdvancePC /\ UNCHANGED <<err, mode>>
+       /\ UNCHANGED <<heap, cur, ctx, contents, content, writer, rv>>
 
 \* {{ n := e }}: the list's single lazily opened scope (released by defer)
 DoLet(s) ==
@@ -523,12 +525,17 @@ DoApi(s) ==
      ELSE CASE s.f = "Let" ->
                /\ heap' = Bind(heap, cur, s.n, r.v) /\ frames' = AdvancePC
                /\ UNCHANGED <<cur, ctx, contents, content, bufs, writer, out, rv, err, mode>>
+          [] s.f = "YieldBlock" ->
+               LET def == FindBlock(heap, cur, s.n) IN
+               IF def.op = "none"
+               THEN Raise("api-block", s.id) /\ UNCHANGED <<frames, heap, cur, ctx, contents, content, bufs, writer, out, rv>>
+               ELSE YieldBlock(s, [def EXCEPT !.ps = <<>>], <<>>, s.e2, FALSE, <<>>)
           [] s.f = "Set" ->
-               IF i = 0 THEN Raise("assign", s.id) /\ UNCHANGED <<frames, heap, cur, ctx, contents, content, bufs, writer, out, rv>>
+               IF i = 0 THEN Raise("api-assign", s.id) /\ UNCHANGED <<frames, heap, cur, ctx, contents, content, bufs, writer, out, rv>>
                ELSE /\ heap' = Bind(heap, i, s.n, r.v) /\ frames' = AdvancePC
                     /\ UNCHANGED <<cur, ctx, contents, content, bufs, writer, out, rv, err, mode>>
           [] s.f = "SetOrLet" ->
-               /\ heap' = Bind(heap, IF Resolve(heap, cur, s.n) = Unset THEN cur ELSE IF i = 0 THEN cur ELSE i, s.n, r.v)
+               /\ heap' = Bind(heap, IF i = 0 THEN cur ELSE i, s.n, r.v)
                /\ frames' = AdvancePC
                /\ UNCHANGED <<cur, ctx, contents, content, bufs, writer, out, rv, err, mode>>
           [] s.f = "LetGlobal" ->
